@@ -16,13 +16,20 @@ TRUSTED = ["model: coq/Model/Tuning.v (hist/bin_of/dig/hist2d, discrete_tc, attr
            "prior/likelihood/expo/weights/posterior/argmax, count_rows over Model/Count.v, decode_binned/decode2d_post/decode2d_decoded/unravel, edges4/decode_occ); theorems: Proofs/TuningProofs.v, Proofs/DecodingProofs.v",
            "PARTIAL - oracle laws visible as Section hypotheses in the closed theorems: np.histogram = hist, np.histogram2d = hist2d (half-open bins, last bin closed), "
            "np.digitize - 1 = dig (all bins half-open), exp = a positive function E (respecting equality); np.prod / ** are exact on the small integers used",
+           "not modelled, checked by the statement oracle only: which unit sits at which position (keys of the tuning curves vs keys of the group; witness C17_decode_pairing_by_position_refuted), "
+           "NaN signal values in the continuous variants, the value written in a visited bin without signal sample (model: n = 0; witness C17_cont_empty_visited_bin_refuted), "
+           "the rate factor (free variable of tc1d/tc2d; the statement's reading is C17_tc1d_value_feature_rate)",
            "the real-valued factor exp(-bin_size * sum of rates) is compared through log(p_i) - log(occ_i prod r^c) + bin_size sum_j r_ij being constant in i (1e-9): the only real-valued comparison"]
 ASSUMPTIONS = ["feature values are integers, bin edges np.linspace(lo, hi, nb+1) have a dyadic step (exact in float64); times on the dyadic lattice 2^-9 s",
-               "a spike equidistant from two feature samples (or duplicate feature timestamps) may be attributed to either by the statement; the oracle accepts every "
-               "attribution to a nearest sample of the same epoch, the extracted model fixes the kernel's choice",
-               "'the feature sampling rate' is read as pynapple's .rate (samples / support duration) of the feature, restricted to ep or not (the 1-d code uses the unrestricted, "
-               "the 2-d code the restricted one); both are accepted",
-               "inferred minmax = min/max of the feature as the code takes it (whole feature for compute_1d_tuning_curves, feature restricted to ep for the other three)",
+               "a spike / signal sample equidistant from two feature samples (or duplicate feature timestamps) may be attributed to either by the statement; the oracle accepts every "
+               "attribution to a nearest sample of the same epoch (ALL combinations are enumerated, for spikes and for the continuous variants), the extracted model fixes the kernel's choice",
+               "'the feature sampling rate' is read as pynapple's .rate (samples / support duration) of the feature AS PASSED (not restricted to ep), for the 1-d and the 2-d function alike; "
+               "a result that is right only with the rate of the feature restricted to ep is reported with key part=rate, rate_of_feature_restricted_to_ep=True",
+               "inferred minmax (the statement does not say from which samples it is inferred) = min/max of the whole feature for compute_1d_tuning_curves, of the feature restricted to ep for the other three "
+               "(pinned per function; only the bin labels depend on it)",
+               "'the mean signal over samples whose feature falls in the bin' of a visited bin holding NO signal sample, or holding a NaN signal value, is NaN (the arithmetic mean as np.mean defines it); 0.0 is not accepted",
+               "decode: each unit's rate is paired with the count of the unit of the SAME key; when the keys of the tuning curves and of the group are not the same sequence the only accepted outcomes are the "
+               "documented RuntimeError or (same key set) the posterior paired by key; different key sets must raise RuntimeError",
                "tuning curves passed to decode are positive rationals with a small common denominator; counts are integers (pre-binned TsdFrame holds integer counts)"]
 
 U = 1953125  # 2^-9 s in ticks
@@ -68,22 +75,41 @@ def choices(x, ft, rows, ep):
     return out
 
 
-def achievable(chs, key, cap=512):
-    """set of count vectors (as dict key->count) reachable by choosing one admissible row per sample"""
-    n = 1
+def achievable(chs, key):
+    """set of count vectors (as sorted tuples of (key, count)) reachable by choosing one admissible row per sample;
+    built incrementally over the samples (the set of distinct vectors stays small), so there is no cap"""
+    outs = {()}
     for c in chs:
-        n *= len(c)
-    if n > cap:
-        return None
-    outs = set()
-    for pick in itertools.product(*chs):
-        d = {}
-        for r in pick:
+        ks = []
+        for r in c:
             k = key(r)
-            if k is not None:
-                d[k] = d.get(k, 0) + 1
-        outs.add(tuple(sorted(d.items())))
+            if k not in ks:
+                ks.append(k)
+        if ks == [None]:
+            continue
+        nxt = set()
+        for v in outs:
+            for k in ks:
+                if k is None:
+                    nxt.add(v)
+                else:
+                    d = dict(v)
+                    d[k] = d.get(k, 0) + 1
+                    nxt.add(tuple(sorted(d.items())))
+        outs = nxt
     return outs
+
+
+def recover_counts(vals, occ, rate):
+    """vals, occ: flat lists. tc x occupancy / rate per bin: an integer, None for a NaN in an unvisited bin, or a string naming what is wrong"""
+    rec = []
+    for x, o in zip(vals, occ):
+        if o == 0:
+            rec.append(None if np.isnan(x) else "not-nan")
+        else:
+            v = x * o / rate
+            rec.append(int(round(v)) if np.isfinite(v) and abs(v - round(v)) < 1e-6 else "non-integer")
+    return rec
 
 
 def edges_of(lo, hi, nb):
@@ -351,6 +377,8 @@ def run_tc1d_cases(res, cases, rng, nap, tag):
         res.count("tc1d_" + ("explicit" if c["explicit"] else "inferred") + "_minmax")
         res.count("tc1d_ep=" + ("None" if c["ep"] is None else "%d_intervals" % len(c["ep"])))
         vin = inside_vals(c, "fx")
+        if not c["explicit"] and vin and (min(vin), max(vin)) != (lo, hi):
+            res.count("tc1d_inferred_minmax_of_whole_feature_wider_than_feature_in_ep")
         occ = [sum(1 for v in vin if obin(v, lo, hi, nb) == k) for k in range(nb)]
         on_edge = any(lo < v < hi and (Fr(v - lo) * nb / (hi - lo)).denominator == 1 for v in vin)
         if on_edge:
@@ -360,7 +388,9 @@ def run_tc1d_cases(res, cases, rng, nap, tag):
                                    "impl": [list(tc.index), list(tc.columns)], "expected": [centres_of(lo, hi, nb), sorted(keys)]})
             pos += len(keys)
             continue
-        rates = [feat.rate, feat.restrict(iset_obj(nap, ep)).rate]
+        rate, rate_ep = float(feat.rate), float(feat.restrict(iset_obj(nap, ep)).rate)     # the statement's rate: the feature's own
+        if rate != rate_ep:
+            res.count("tc1d_rate_differs_from_rate_restricted_to_ep")
         for k, sp in zip(keys, c["units"]):
             m = out[pos].split("|")
             pos += 1
@@ -375,26 +405,24 @@ def run_tc1d_cases(res, cases, rng, nap, tag):
                 res.count("tc1d_silent_or_outside_unit")
             col = tc[k].values.astype(float)
             ach = achievable(chs, lambda v: None if v is None else obin(v, lo, hi, nb))
-            got, bad, gkey = None, True, None
-            for r in rates:                     # either reading of "the feature sampling rate" is accepted
-                rec = []
-                for kk in range(nb):
-                    if occ[kk] == 0:
-                        rec.append(None if np.isnan(col[kk]) else "not-nan")
-                    else:
-                        v = col[kk] * occ[kk] / r
-                        rec.append(int(round(v)) if np.isfinite(v) and abs(v - round(v)) < 1e-6 else "non-integer")
-                rkey = tuple(sorted((kk, x) for kk, x in enumerate(rec) if isinstance(x, int) and x > 0))
-                rbad = any(isinstance(x, str) for x in rec)
-                if got is None or (not rbad and (ach is None or rkey in ach)):
-                    got, bad, gkey = rec, rbad, rkey
-                    if not rbad and (ach is None or rkey in ach):
-                        break
-            if bad or (ach is not None and gkey not in ach):
-                res.violations.append({"key": {"op": "compute_1d_tuning_curves", "explicit_minmax": c["explicit"]},
-                                       "what": "tc x occupancy / rate is not the number of spikes whose nearest-in-time feature sample (same epoch) falls in the bin, or an unvisited bin is not NaN",
-                                       "input": dict(inp, unit=k), "impl": {"tc": col.tolist(), "counts": got, "occupancy": occ}, "expected": sorted(ach)[:4] if ach else None})
-            elif ach is not None:
+
+            def judge(r):
+                rec = recover_counts(col, occ, r)
+                return rec, (not any(isinstance(x, str) for x in rec)
+                             and tuple(sorted((kk, x) for kk, x in enumerate(rec) if isinstance(x, int) and x > 0)) in ach)
+            got, ok = judge(rate)
+            got_ep, ok_ep = judge(rate_ep)
+            cmp_counts = [g for g, o in ((got, ok), (got_ep, ok_ep)) if o]      # counts compared with the model's: recovered with a rate that explains the output
+            if not ok:
+                if ok_ep and rate_ep != rate:
+                    res.violations.append({"key": {"op": "compute_1d_tuning_curves", "part": "rate", "rate_of_feature_restricted_to_ep": True},
+                                           "what": "tc x occupancy / feature.rate is not the number of attributed spikes; it is with the rate of the feature restricted to ep (%r instead of %r)" % (rate_ep, rate),
+                                           "input": dict(inp, unit=k), "impl": {"tc": col.tolist(), "counts": got_ep, "occupancy": occ}, "expected": sorted(ach)[:4]})
+                else:
+                    res.violations.append({"key": {"op": "compute_1d_tuning_curves", "part": "count", "explicit_minmax": c["explicit"], "unvisited_bin_not_nan": "not-nan" in got},
+                                           "what": "tc x occupancy / rate is not the number of spikes whose nearest-in-time feature sample (same epoch) falls in the bin, or an unvisited bin is not NaN",
+                                           "input": dict(inp, unit=k), "impl": {"tc": col.tolist(), "counts": got, "occupancy": occ, "rate": rate}, "expected": sorted(ach)[:4]})
+            else:
                 # conservation: spikes in = sum of recovered counts
                 nin = sum(1 for ch in chs if any(v is not None and obin(v, lo, hi, nb) is not None for v in ch))
                 tot = sum(x for x in got if isinstance(x, int))
@@ -404,8 +432,8 @@ def run_tc1d_cases(res, cases, rng, nap, tag):
             if mo != occ:
                 res.disagreements.append({"op": "tc1d occupancy", "input": inp, "model": mo, "expected": occ})
             mgot = [None if o == 0 else x for x, o in zip(mc, mo)]
-            if not bad and mgot != got:
-                res.disagreements.append({"op": "tc1d counts", "input": dict(inp, unit=k), "impl": got, "model": mgot})
+            if cmp_counts and mgot not in cmp_counts:
+                res.disagreements.append({"op": "tc1d counts", "input": dict(inp, unit=k), "impl": cmp_counts, "model": mgot})
             if any(x != 0 for x, o in zip(mc, mo) if o == 0) or "inf" in m[2]:
                 res.disagreements.append({"op": "tc1d model: count in unvisited bin", "input": dict(inp, unit=k), "model": m})
         if n % 401 == 0:
@@ -444,6 +472,8 @@ def part_tc2d(res, tier, rng, nap):
         inp.update(nb_bins=[nx, ny], minmax=(lx, hx, ly, hy) if explicit else None)
         tc, xy = nap.compute_2d_tuning_curves(g, feat, nbarg, **kw)
         res.count("part=tc2d")
+        if not explicit and ((min(c["fx"]), max(c["fx"])) != (lx, hx) or (min(c["fy"]), max(c["fy"])) != (ly, hy)):
+            res.count("tc2d_inferred_minmax_of_feature_in_ep_narrower_than_whole_feature")
         rows = list(zip(c["fx"], c["fy"]))
         rin = [r for t, r in zip(c["ft"], rows) if G.mem(t, ep)]
 
@@ -458,7 +488,10 @@ def part_tc2d(res, tier, rng, nap):
                                    "impl": [list(xy[0]), list(xy[1])], "expected": [centres_of(lx, hx, nx), centres_of(ly, hy, ny)]})
             pos += len(keys)
             continue
-        rates = [feat.restrict(iset_obj(nap, ep)).rate, feat.rate]
+        rate, rate_ep = float(feat.rate), float(feat.restrict(iset_obj(nap, ep)).rate)     # the statement's rate: the feature's own
+        if rate != rate_ep:
+            res.count("tc2d_rate_differs_from_rate_restricted_to_ep")
+        occ_flat = [occ[i][j] for i in range(nx) for j in range(ny)]
         for k, sp in zip(keys, c["units"]):
             m = out[pos].split("|")
             pos += 1
@@ -469,51 +502,42 @@ def part_tc2d(res, tier, rng, nap):
             res.case(("tc2d", n, k), nontrivial=0 < len(spin) and any(any(r) for r in occ))
             a = np.asarray(tc[k], dtype=float)
             ach = achievable(chs, key2)
-            got, bad, gkey = None, True, None
-            for r in rates:                     # either reading of "the feature sampling rate" is accepted
-                rec = []
-                for i in range(nx):
-                    for j in range(ny):
-                        if a.shape != (nx, ny):
-                            rec.append("shape")
-                        elif occ[i][j] == 0:
-                            rec.append(None if np.isnan(a[i, j]) else "not-nan")
-                        else:
-                            v = a[i, j] * occ[i][j] / r
-                            rec.append(int(round(v)) if np.isfinite(v) and abs(v - round(v)) < 1e-6 else "non-integer")
-                rkey = tuple(sorted(((q // ny, q % ny), x) for q, x in enumerate(rec) if isinstance(x, int) and x > 0))
-                rbad = any(isinstance(x, str) for x in rec)
-                if got is None or (not rbad and (ach is None or rkey in ach)):
-                    got, bad, gkey = rec, rbad, rkey
-                    if not rbad and (ach is None or rkey in ach):
-                        break
-            if bad or (ach is not None and gkey not in ach):
-                res.violations.append({"key": {"op": "compute_2d_tuning_curves", "explicit_minmax": explicit},
-                                       "what": "tc x occupancy / rate is not the number of spikes whose nearest-in-time feature sample (same epoch) falls in the cell, or an unvisited cell is not NaN",
-                                       "input": dict(inp, unit=k), "impl": {"tc": a.tolist(), "counts": got, "occupancy": occ}, "expected": sorted(ach)[:4] if ach else None})
+
+            def judge(r):
+                if a.shape != (nx, ny):
+                    return ["shape"] * (nx * ny), False
+                rec = recover_counts(a.reshape(-1).tolist(), occ_flat, r)
+                return rec, (not any(isinstance(x, str) for x in rec)
+                             and tuple(sorted(((q // ny, q % ny), x) for q, x in enumerate(rec) if isinstance(x, int) and x > 0)) in ach)
+            got, ok = judge(rate)
+            got_ep, ok_ep = judge(rate_ep)
+            cmp_counts = [g for g, o in ((got, ok), (got_ep, ok_ep)) if o]      # counts compared with the model's: recovered with a rate that explains the output
+            if not ok:
+                if ok_ep and rate_ep != rate:
+                    res.violations.append({"key": {"op": "compute_2d_tuning_curves", "part": "rate", "rate_of_feature_restricted_to_ep": True},
+                                           "what": "tc x occupancy / features.rate is not the number of attributed spikes; it is with the rate of the features restricted to ep (%r instead of %r), "
+                                                   "whereas compute_1d_tuning_curves multiplies by the rate of the feature as passed" % (rate_ep, rate),
+                                           "input": dict(inp, unit=k), "impl": {"tc": a.tolist(), "counts": got_ep, "occupancy": occ}, "expected": sorted(ach)[:4]})
+                else:
+                    res.violations.append({"key": {"op": "compute_2d_tuning_curves", "part": "count", "explicit_minmax": explicit, "unvisited_bin_not_nan": "not-nan" in got},
+                                           "what": "tc x occupancy / rate is not the number of spikes whose nearest-in-time feature sample (same epoch) falls in the cell, or an unvisited cell is not NaN",
+                                           "input": dict(inp, unit=k), "impl": {"tc": a.tolist(), "counts": got, "occupancy": occ, "rate": rate}, "expected": sorted(ach)[:4]})
             if mo != occ:
                 res.disagreements.append({"op": "tc2d occupancy", "input": inp, "model": mo, "expected": occ})
             mgot = [None if mo[i][j] == 0 else mc[i][j] for i in range(nx) for j in range(ny)]
-            if not bad and mgot != got:
-                res.disagreements.append({"op": "tc2d counts", "input": dict(inp, unit=k), "impl": got, "model": mgot})
+            if cmp_counts and mgot not in cmp_counts:
+                res.disagreements.append({"op": "tc2d counts", "input": dict(inp, unit=k), "impl": cmp_counts, "model": mgot})
             if "inf" in m[2]:
                 res.disagreements.append({"op": "tc2d model: count in unvisited cell", "input": dict(inp, unit=k), "model": m})
 
 
 # ----------------------------------------------------------------------------------------------------------------
-def cont_expected(chs, sig, key, nbtot, occ_flat):
-    """per bin (n, sum) of the signal values whose attributed feature falls in the bin; only when attribution is unique"""
-    acc = [[0, 0] for _ in range(nbtot)]
-    for ch, v in zip(chs, sig):
-        k = key(ch[0])
-        if k is not None:
-            acc[k][0] += 1
-            acc[k][1] += v
-    return [None if occ_flat[k] == 0 else tuple(acc[k]) for k in range(nbtot)]
+CONT_DEFECTS = ("last_edge_samples_dropped", "empty_visited_bin_is_zero", "nan_mean_is_zero")
 
 
-def cont_check(col, exp):
-    """col: float values per bin; exp: None (NaN expected) or (n, s). A visited bin with n == 0 has no mean: the code writes 0.0, accepted as such."""
+def cont_model_check(col, exp):
+    """model vs implementation. col: float values per bin; exp: None (NaN) or (n, s) of the extracted model; the model has no float,
+    so for a visited bin with n == 0 (no mean) both 0.0 and NaN agree with it; the statement oracle below decides."""
     for x, e in zip(col, exp):
         if e is None:
             if not np.isnan(x):
@@ -524,6 +548,63 @@ def cont_check(col, exp):
         elif np.isnan(x) or abs(x * e[0] - e[1]) > 1e-6:
             return False
     return True
+
+
+def cont_expect(pick, vals, key, occ_flat, is_last, defects=()):
+    """statement: per bin the mean of the signal values whose attributed feature row (pick[i] for sample i) falls in the bin; NaN for an
+    unvisited bin, for a visited bin without signal sample and when a value is NaN (arithmetic mean).  `defects` switches on the
+    library's known deviations.  Returns per bin ("nan",), ("zero",) or ("mean", n, sum)."""
+    acc = [[] for _ in occ_flat]
+    for r, v in zip(pick, vals):
+        k = key(r)
+        if k is None or ("last_edge_samples_dropped" in defects and is_last(r)):
+            continue
+        acc[k].append(v)
+    out = []
+    for k, vs in enumerate(acc):
+        if occ_flat[k] == 0:
+            out.append(("nan",))
+        elif not vs:
+            out.append(("zero",) if "empty_visited_bin_is_zero" in defects else ("nan",))
+        elif any(v != v for v in vs):
+            out.append(("zero",) if "nan_mean_is_zero" in defects else ("nan",))
+        else:
+            out.append(("mean", len(vs), sum(vs)))
+    return out
+
+
+def cont_match(col, exp):
+    for x, e in zip(col, exp):
+        if e[0] == "nan":
+            if not np.isnan(x):
+                return False
+        elif e[0] == "zero":
+            if x != 0.0:
+                return False
+        elif np.isnan(x) or abs(x * e[1] - e[2]) > 1e-6:
+            return False
+    return True
+
+
+def cont_judge(cols, sigs, chs, key, occ_flat, is_last, cap=4096):
+    """cols / sigs: {column: implementation values per bin} / {column: signal values of the samples in ep}; chs: admissible rows per sample.
+    Returns (ok, defects, expectation of the first attribution): ok when SOME admissible attribution gives the statement's values in every
+    column; otherwise the smallest set of known deviations under which some attribution does (None: unexplained)."""
+    n = 1
+    for ch in chs:
+        n *= len(ch)
+    if n > cap:
+        return None, None, None
+    picks = list(itertools.product(*chs))
+    first = {cn: cont_expect(picks[0], sigs[cn], key, occ_flat, is_last) for cn in cols}
+    # fewest deviations first; a NaN mean written as 0.0 is blamed only when the output cannot be explained without it
+    # (a bin emptied by the last-edge rule is 0.0 whether or not the dropped samples held a NaN)
+    subsets = [ds for size in range(len(CONT_DEFECTS) + 1) for ds in itertools.combinations(CONT_DEFECTS, size)]
+    for ds in sorted(subsets, key=lambda ds: ("nan_mean_is_zero" in ds, len(ds))):
+        for pick in picks:
+            if all(cont_match(cols[cn], cont_expect(pick, sigs[cn], key, occ_flat, is_last, ds)) for cn in cols):
+                return len(ds) == 0, ds, first
+    return False, None, first
 
 
 def part_cont(res, tier, rng, nap):
@@ -538,29 +619,37 @@ def part_cont(res, tier, rng, nap):
         st = sorted(rng.sample(grid, rng.randint(1, 8)) + ([rng.choice(grid)] if rng.random() < 0.2 else []))
         if len(set(st)) < 2:
             continue
-        c.update(bx=bx, by=by, two=two, st=st, sv=[rng.randint(-3, 9) for _ in st])
+        sv = [rng.randint(-3, 9) for _ in st]
+        nan_at = sorted(rng.sample(range(len(st)), rng.choice([1, 1, 2]))) if rng.random() < 0.2 else []
+        c.update(bx=bx, by=by, two=two, st=st, sv=sv, nan_at=nan_at)
         cases.append(c)
-    lines = []
-    for c in cases:
+    # the extracted model works on integers: it is run on the cases without NaN signal value
+    lines, mpos = [], {}
+    for n, c in enumerate(cases):
+        if c["nan_at"]:
+            continue
+        mpos[n] = len(lines)
         if c["two"]:
             lines.append("cont2d\t%d %d %d\t%d %d %d\t%s\t%s\t%s\t%s\t%s\t%s" % (c["bx"][:3] + c["by"][:3] + (C.fmt_ints(c["st"]), C.fmt_ints(c["sv"]), C.fmt_ints(c["ft"]), C.fmt_ints(c["fx"]), C.fmt_ints(c["fy"]), C.fmt_iset(c["epe"]))))
         else:
             lines.append("cont1d\t%d %d %d\t%s\t%s\t%s\t%s\t%s" % (c["bx"][:3] + (C.fmt_ints(c["st"]), C.fmt_ints(c["sv"]), C.fmt_ints(c["ft"]), C.fmt_ints(c["fx"]), C.fmt_iset(c["epe"]))))
     out = C.run_model(lines, driver="driver_c17")
     wide = iset_obj(nap, [(-U, 12 * U)])
+    nan = float("nan")
     for n, c in enumerate(cases):
         (lx, hx, nx, explicit), (ly, hy, ny, _) = c["bx"], c["by"]
         ep, two = c["epe"], c["two"]
         op = "compute_2d_tuning_curves_continuous" if two else "compute_1d_tuning_curves_continuous"
-        sv2 = [3 * v + 1 for v in c["sv"]]
-        sig = nap.TsdFrame(G.arr(c["st"]), np.array([c["sv"], sv2], dtype=float).T, time_support=wide, columns=["p", "q"])
+        svp = [nan if i in c["nan_at"] else float(v) for i, v in enumerate(c["sv"])]
+        svq = [3 * v + 1 for v in svp]
+        sig = nap.TsdFrame(G.arr(c["st"]), np.array([svp, svq], dtype=float).T, time_support=wide, columns=["p", "q"])
         single = (not two) and rng.random() < 0.3
         if single:
-            sig = nap.Tsd(G.arr(c["st"]), np.array(c["sv"], dtype=float), time_support=wide)
+            sig = nap.Tsd(G.arr(c["st"]), np.array(svp, dtype=float), time_support=wide)
         kw = {}
         if c["ep"] is not None:
             kw["ep"] = iset_obj(nap, c["ep"])
-        inp = {k: c[k] for k in ("st", "sv", "ft", "fx", "fsup", "ep")}
+        inp = {k: c[k] for k in ("st", "sv", "nan_at", "ft", "fx", "fsup", "ep")}
         if two:
             feat = nap.TsdFrame(G.arr(c["ft"]), np.array([c["fx"], c["fy"]], dtype=float).T, time_support=iset_obj(nap, c["fsup"]))
             if explicit:
@@ -581,40 +670,60 @@ def part_cont(res, tier, rng, nap):
             rows = [(v, 0) for v in c["fx"]]
         res.count("part=" + ("cont2d" if two else "cont1d"))
         res.count("cont_" + ("explicit" if explicit else "inferred") + "_minmax")
+        if not explicit and ((min(c["fx"]), max(c["fx"])) != (lx, hx) or (two and (min(c["fy"]), max(c["fy"])) != (ly, hy))):
+            res.count("cont_inferred_minmax_of_feature_in_ep_narrower_than_whole_feature")
 
         def key2(r):
             if r is None:
                 return None
             i, j = obin(r[0], lx, hx, nx), obin(r[1], ly, hy, ny)
             return None if i is None or j is None else i * ny + j
+
+        def is_last(r):
+            return r[0] == hx or (two and r[1] == hy)
         rin = [r for t, r in zip(c["ft"], rows) if G.mem(t, ep)]
         occ = [sum(1 for r in rin if key2(r) == q) for q in range(nx * ny)]
-        sin = [(t, v) for t, v in zip(c["st"], c["sv"]) if G.mem(t, ep)]
-        chs = [choices(t, c["ft"], rows, ep) for t, _ in sin]
+        keep = [i for i, t in enumerate(c["st"]) if G.mem(t, ep)]
+        sigs = {"p": [svp[i] for i in keep], "q": [svq[i] for i in keep]}
+        chs = [choices(c["st"][i], c["ft"], rows, ep) for i in keep]
         unique = all(len(ch) == 1 for ch in chs)
-        last_edge = any(r is not None and (r[0] == hx or (two and r[1] == hy)) for ch in chs for r in ch)
-        res.case(("cont", n), nontrivial=len(sin) > 0 and any(occ))
+        last_edge = any(r is not None and key2(r) is not None and is_last(r) for ch in chs for r in ch)
+        res.case(("cont", n), nontrivial=len(keep) > 0 and any(occ))
         if last_edge:
             res.count("cont_sample_attributed_to_last_edge")
         if not unique:
             res.count("cont_equidistant_sample")
+        if c["nan_at"] and any(i in keep for i in c["nan_at"]):
+            res.count("cont_nan_signal_value_in_ep")
         if not labels_ok:
             res.violations.append({"key": {"op": op, "part": "labels"}, "what": "index/xy is not the bin centres", "input": inp})
             continue
-        # model vs implementation (always)
-        cells = [x for r in out[n].split(";") for x in r.split()]
-        mexp = [None if x == "nan" else tuple(int(v) for v in x.split(":")) for x in cells]
-        if not cont_check(cols["p"], mexp) or ("q" in cols and not cont_check(cols["q"], [None if e is None else (e[0], 3 * e[1] + e[0]) for e in mexp])):
-            res.disagreements.append({"op": op, "input": inp, "impl": {k: v.tolist() for k, v in cols.items()}, "model": mexp})
-        # statement (when the attribution is unique)
-        if unique:
-            exp = cont_expected(chs, [v for _, v in sin], key2, nx * ny, occ)
-            ok = cont_check(cols["p"], exp) and ("q" not in cols or cont_check(cols["q"], [None if e is None else (e[0], 3 * e[1] + e[0]) for e in exp]))
-            if not ok:
-                res.violations.append({"key": {"op": op, "part": "value_on_last_edge" if last_edge else "mean"},
-                                       "what": "per-bin value is not the mean of the signal samples whose (nearest-in-time, same epoch) feature value falls in the bin / NaN for an unvisited bin"
-                                               + ("; a feature value equal to the LAST bin edge is counted as visiting the last bin (np.histogram) but its signal samples are dropped (np.digitize)" if last_edge else ""),
-                                       "input": inp, "impl": {k: v.tolist() for k, v in cols.items()}, "expected (n, sum) per bin": exp})
+        # model vs implementation (integer signals)
+        if n in mpos:
+            cells = [x for r in out[mpos[n]].split(";") for x in r.split()]
+            mexp = [None if x == "nan" else tuple(int(v) for v in x.split(":")) for x in cells]
+            if not cont_model_check(cols["p"], mexp) or ("q" in cols and not cont_model_check(cols["q"], [None if e is None else (e[0], 3 * e[1] + e[0]) for e in mexp])):
+                res.disagreements.append({"op": op, "input": inp, "impl": {k: v.tolist() for k, v in cols.items()}, "model": mexp})
+        # statement: SOME admissible attribution of the samples gives the returned values
+        ok, ds, first = cont_judge(cols, {cn: sigs[cn] for cn in cols}, chs, key2, occ, is_last)
+        if ok is None:
+            res.count("cont_attribution_enumeration_capped")
+        elif not ok:
+            if any(e[0] != "mean" and o > 0 for e, o in zip(first["p"], occ)):
+                res.count("cont_visited_bin_without_mean")
+            flags = {d: bool(ds is not None and d in ds) for d in CONT_DEFECTS}
+            pure_last = ds == ("last_edge_samples_dropped",)
+            why = []
+            if flags["last_edge_samples_dropped"]:
+                why.append("a feature value equal to the LAST bin edge is counted as visiting the last bin (np.histogram) but its signal samples are dropped (np.digitize)")
+            if flags["empty_visited_bin_is_zero"]:
+                why.append("a visited bin holding no signal sample is 0.0 (tc[np.isnan(tc)] = 0.0), indistinguishable from a zero mean")
+            if flags["nan_mean_is_zero"]:
+                why.append("a bin whose signal samples include NaN is 0.0, which is neither their mean (NaN) nor their nanmean")
+            res.violations.append({"key": dict({"op": op, "part": "value_on_last_edge" if pure_last else "mean", "explained": ds is not None}, **flags),
+                                   "what": "per-bin value is not the mean of the signal samples whose (nearest-in-time, same epoch) feature value falls in the bin / NaN for an unvisited bin"
+                                           + ("; " + "; ".join(why) if why else ""),
+                                   "input": inp, "impl": {k: v.tolist() for k, v in cols.items()}, "expected per bin (first admissible attribution)": first})
         if n % 301 == 0:
             res.sample({"cont": inp, "tc": {k: v.tolist() for k, v in cols.items()}})
 
@@ -667,8 +776,16 @@ def part_decode(res, tier, rng, nap):
             units.append(sorted(rng.choice(grid) + rng.choice([0, 0, U // 5]) for _ in range(rng.randint(0, 7))))
         with_feat = rng.random() < 0.55
         fv = [(rng.randint(lx - 1, lx + nx * stepx + 1), rng.randint(ly - 1, ly + ny * stepy)) for _ in range(rng.randint(2, 7))]
+        # unit keys: "same" (tuning-curve columns and group keys are the same sorted sequence), "group_permuted" (the dict / TsGroup is
+        # built in another insertion order), "tc_permuted" (the tuning-curve columns are in another order than the sorted group keys),
+        # "mismatched" (same number of units, one key differs)
+        keyorder = rng.choice(["same", "same", "group_permuted", "tc_permuted", "mismatched"] if nu >= 2 else ["same", "same", "mismatched"])
+        perm = list(range(nu))
+        while nu >= 2 and perm == list(range(nu)):
+            perm = rng.sample(range(nu), nu)
         cases.append(dict(two=two, nx=nx, ny=ny, lx=lx, ly=ly, sx=stepx, sy=stepy, nu=nu, rd=rd, tcn=tcn, ep=ep, b=b, units=units, with_feat=with_feat, fv=fv,
-                          mode=rng.choice(["TsGroup", "dict", "TsdFrame"]), units_name=rng.choice(["s", "ms", "us"])))
+                          mode=rng.choice(["TsGroup", "dict", "TsdFrame"]), units_name=rng.choice(["s", "ms", "us"]), keyorder=keyorder, perm=perm,
+                          wrong_key=rng.choice([1, 4, 11]), wrong_at=rng.randrange(nu)))
     # model: count rows + posterior per distinct count vector
     lines = ["rows\t%s\t%d\t%s" % (C.fmt_iset(c["ep"]), c["b"], "\t".join(C.fmt_ints(sp) for sp in c["units"])) for c in cases]
     out_rows = C.run_model(lines, driver="driver_c17")
@@ -709,20 +826,28 @@ def part_decode(res, tier, rng, nap):
         epo = iset_obj(nap, ep)
         wide = iset_obj(nap, [(-U, 17 * U)])
         f = {"s": 1e9, "ms": 1e6, "us": 1e3}[c["units_name"]]
+        ko = c["keyorder"]
+        tck = [ks[i] for i in c["perm"]] if ko == "tc_permuted" else list(ks)                 # order of the tuning-curve columns / dict keys
+        gk = list(ks)                                                                         # key of unit u in the group
+        if ko == "mismatched":
+            gk[c["wrong_at"]] = c["wrong_key"]
+        gorder = c["perm"] if ko == "group_permuted" else list(range(nu))                     # insertion order of the group
         inp = {k: c[k] for k in ("ep", "b", "units", "tcn", "rd", "mode", "units_name", "with_feat", "fv")}
-        inp.update(nb=[nx, ny] if two else nx, centres=[cx, cy] if two else cx)
+        inp.update(nb=[nx, ny] if two else nx, centres=[cx, cy] if two else cx, tuning_curve_keys=tck, group_keys=[gk[u] for u in gorder])
         res.count("part=" + ("decode_2d" if two else "decode_1d"))
         res.count("decode_group=" + c["mode"])
         res.count("decode_units=" + c["units_name"])
         res.count("decode_prior=" + ("occupancy" if c["with_feat"] else "uniform"))
+        res.count("decode_keys=%s/%s" % (ko, c["mode"]))
+        kinfo = {"group": c["mode"], "keys": ko}
         if c["mode"] == "TsGroup":
-            grp = nap.TsGroup({k: nap.Ts(G.arr(sp)) for k, sp in zip(ks, c["units"])}, time_support=wide)
+            grp = nap.TsGroup({gk[u]: nap.Ts(G.arr(c["units"][u])) for u in gorder}, time_support=wide)
         elif c["mode"] == "dict":
-            grp = {k: nap.Ts(G.arr(sp)) for k, sp in zip(ks, c["units"])}
+            grp = {gk[u]: nap.Ts(G.arr(c["units"][u])) for u in gorder}
         else:
             # pre-binned counts on a support WIDER than ep: rows outside ep must not be decoded
             ep2 = ep + [(16 * U, 17 * U)] if rng.random() < 0.5 else ep
-            g0 = nap.TsGroup({k: nap.Ts(G.arr(sp + [16 * U])) for k, sp in zip(ks, c["units"])}, time_support=wide)
+            g0 = nap.TsGroup({gk[u]: nap.Ts(G.arr(c["units"][u] + [16 * U])) for u in gorder}, time_support=wide)
             grp = g0.count(b / 1e9, iset_obj(nap, ep2))
             if ep2 is not ep:
                 res.count("decode_prebinned_rows_outside_ep")
@@ -734,7 +859,7 @@ def part_decode(res, tier, rng, nap):
         kw = {"time_units": c["units_name"]}
         try:
             if two:
-                tcd = {k: np.array([[float(rates[i * ny + j][u]) for j in range(ny)] for i in range(nx)]) for u, k in enumerate(ks)}
+                tcd = {k: np.array([[float(rates[i * ny + j][ks.index(k)]) for j in range(ny)] for i in range(nx)]) for k in tck}
                 if c["with_feat"]:
                     ft = [i * U for i in range(len(c["fv"]))]
                     kw["features"] = nap.TsdFrame(G.arr(ft), np.array(c["fv"], dtype=float), time_support=wide, columns=["x", "y"])
@@ -752,7 +877,7 @@ def part_decode(res, tier, rng, nap):
                 dv = [tuple(r) for r in dec.values]
                 cen = [(cx[i], cy[j]) for i in range(nx) for j in range(ny)]
             else:
-                tcd = pd.DataFrame(index=cx, data={k: [float(rates[i][u]) for i in range(nx)] for u, k in enumerate(ks)})
+                tcd = pd.DataFrame(index=cx, data={k: [float(rates[i][ks.index(k)]) for i in range(nx)] for k in tck})
                 if c["with_feat"]:
                     ft = [i * U for i in range(len(c["fv"]))]
                     kw["feature"] = nap.Tsd(G.arr(ft), np.array([v[0] for v in c["fv"]], dtype=float), time_support=wide)
@@ -766,9 +891,20 @@ def part_decode(res, tier, rng, nap):
         except Exception as ex:
             one_bin = c["with_feat"] and (nx < 2 or (two and ny < 2))
             res.case(("decode", n), nontrivial=True)
-            res.violations.append({"key": {"op": op, "part": "one_bin_with_occupancy_prior" if one_bin else "exception"},
+            if ko in ("tc_permuted", "mismatched") and isinstance(ex, RuntimeError) and "tuning" in str(ex):
+                res.count("decode_refused_keys=%s/%s" % (ko, c["mode"]))        # the documented refusal
+                continue
+            res.violations.append({"key": dict({"op": op, "part": "one_bin_with_occupancy_prior" if one_bin else "exception", "exception": type(ex).__name__}, **kinfo),
                                    "what": "decode raised %s: %s" % (type(ex).__name__, str(ex)[:80]), "input": inp})
             continue
+        if ko == "mismatched":
+            res.case(("decode", n), nontrivial=True)
+            res.violations.append({"key": dict({"op": op, "part": "unit_keys"}, **kinfo),
+                                   "what": "the group's keys %s are not the tuning curves' keys %s, yet a posterior is returned (units paired by position) instead of the documented RuntimeError"
+                                           % (sorted(gk), tck), "input": inp, "impl": np.asarray(P).tolist()[:3], "expected": "RuntimeError"})
+            continue
+        if ko == "tc_permuted":
+            res.count("decode_answered_keys=tc_permuted/" + c["mode"])
         rows = c["rows"]
         if c["mode"] == "TsdFrame" or two:
             # model: rows of a pre-binned frame that are decoded (inside ep); decode_2d's posterior rows; unravel of the argmax
@@ -798,7 +934,7 @@ def part_decode(res, tier, rng, nap):
                     res.violations.append({"key": {"op": op, "part": "posterior"}, "what": "occupancy prior is zero everywhere but the posterior is not NaN", "input": dict(inp, count=cnt), "impl": P[ti].tolist()})
                 continue
             if not post_check(P[ti], wl, ex):
-                res.violations.append({"key": {"op": op, "part": "posterior"}, "what": "posterior is not the normalised prior(occupancy) x exp(-bin_size x sum of rates) x prod rate^count",
+                res.violations.append({"key": dict({"op": op, "part": "posterior"}, **kinfo), "what": ("the tuning-curve columns are in another order than the group's sorted keys and the units are paired by POSITION, not by key: " if ko == "tc_permuted" else "") + "posterior is not the normalised prior(occupancy) x exp(-bin_size x sum of rates) x prod rate^count",
                                        "input": dict(inp, count=cnt), "impl": P[ti].tolist(), "expected unnormalised (without exp)": list(map(str, wl)), "exponents": list(map(str, ex))})
                 continue
             # decoded value = centre of the maximal posterior bin (exact log-weights; first index among exact ties)
@@ -853,9 +989,13 @@ def run(res, tier, seed):
                 "lattice around [lo,hi] incl. every edge [complete]; (2) public API, seeded random on the dyadic time lattice 2^-9 s (12 points; feature samples on even points so that "
                 "spikes are on samples, midway between samples (equidistant) and on epoch ends): compute_discrete_tuning_curves (1-3 epoch sets, <=3 intervals each), compute_1d/2d_tuning_curves and "
                 "the continuous variants (feature with 2-4 samples incl. duplicate timestamps, values 0..3 incl. interior edges and the last edge, feature support with a gap, ep None / 1-3 intervals, "
-                "nb 1..4, explicit and inferred minmax, 3 units: every lattice alignment with duplicates / random subset / silent or outside), decode_1d/2d (TsGroup, dict, pre-binned TsdFrame; s/ms/us; "
-                "uniform and occupancy prior; 1-3 units; identical bins; equal summed rates); (3) compute_1d_tuning_curves on a COMPLETE small space (all 2-3 sample features on 4 lattice points x values {0,1,2} x all canonical "
-                "epoch sets of 1-2 intervals on 6 points, a unit firing at every lattice point: 4860 cases; complete in thorough, seeded sample of 500 in quick). Each case: extracted model vs implementation AND brute-force statement oracle on the implementation's output. "
+                "nb 1..4, explicit and inferred minmax, 3 units: every lattice alignment with duplicates / random subset / silent or outside; the continuous variants with integer signal values and, in 1 case of 5, "
+                "1-2 NaN signal values [statement oracle only: the extracted model has no NaN]), decode_1d/2d (TsGroup, dict, pre-binned TsdFrame; s/ms/us; "
+                "uniform and occupancy prior; 1-3 units; identical bins; equal summed rates; unit keys: same sequence in tuning curves and group / group built in a permuted insertion order / tuning-curve columns "
+                "permuted / one key different); (3) compute_1d_tuning_curves on a COMPLETE small space (all 2-3 sample features on 4 lattice points x values {0,1,2} x all canonical "
+                "epoch sets of 1-2 intervals on 6 points, a unit firing at every lattice point: 4860 cases; complete in thorough, seeded sample of 500 in quick). Each case: extracted model vs implementation AND brute-force statement oracle on the implementation's output "
+                "(tuning curves: tc x occupancy / feature.rate must be a count vector reachable by SOME admissible attribution, all enumerated; continuous: the values must be the per-bin means of SOME admissible attribution, "
+                "NaN where the bin is unvisited / holds no sample / holds a NaN; decode: units paired by key). "
                 "non-trivial = at least one spike/sample inside ep and a visited bin (decode: a non-zero count); distinct = distinct case index x unit")
     res.exhaustive = False
     rng = random.Random(seed * 31 + 17)
@@ -885,10 +1025,11 @@ def replay(payload):
     print("op", op)
     print("input", inp)
     print("recorded implementation output:", v.get("impl"))
-    print("recorded expectation          :", v.get("expected", v.get("expected (n, sum) per bin")))
+    print("recorded expectation          :", v.get("expected", v.get("expected per bin (first admissible attribution)", v.get("expected (n, sum) per bin"))))
     if op == "compute_1d_tuning_curves_continuous" and "st" in inp:
         wide = iset_obj(nap, [(-U, 12 * U)])
-        sig = nap.Tsd(G.arr(inp["st"]), np.array(inp["sv"], dtype=float), time_support=wide)
+        sv = [float("nan") if i in (inp.get("nan_at") or []) else float(v) for i, v in enumerate(inp["sv"])]
+        sig = nap.Tsd(G.arr(inp["st"]), np.array(sv, dtype=float), time_support=wide)
         feat = nap.Tsd(G.arr(inp["ft"]), np.array(inp["fx"], dtype=float), time_support=iset_obj(nap, [tuple(x) for x in inp["fsup"]]))
         kw = {}
         if inp.get("ep") is not None:
@@ -901,17 +1042,17 @@ def replay(payload):
         ep = [tuple(x) for x in (inp.get("ep") or inp["fsup"])]
         nb = inp["nb_bins"]
         rows = [(x, 0) for x in inp["fx"]]
-        sin = [(t, s) for t, s in zip(inp["st"], inp["sv"]) if G.mem(t, ep)]
-        chs = [choices(t, inp["ft"], rows, ep) for t, _ in sin]
         if inp.get("minmax") is None:
             vin = [x for t, x in zip(inp["ft"], inp["fx"]) if G.mem(t, ep)]
             lo, hi = min(vin), max(vin)
+        keep = [i for i, t in enumerate(inp["st"]) if G.mem(t, ep)]
+        chs = [choices(inp["st"][i], inp["ft"], rows, ep) for i in keep]
         occ = [sum(1 for t, r in zip(inp["ft"], rows) if G.mem(t, ep) and obin(r[0], lo, hi, nb) == k) for k in range(nb)]
-        if all(len(ch) == 1 for ch in chs):
-            exp = cont_expected(chs, [s for _, s in sin], lambda r: None if r is None else obin(r[0], lo, hi, nb), nb, occ)
-            print("statement (n, sum) per bin   :", exp)
-            return 0 if cont_check(tc.values[:, 0].astype(float), exp) else 1
-        return 0
+        ok, ds, first = cont_judge({"p": tc.values[:, 0].astype(float)}, {"p": [sv[i] for i in keep]}, chs,
+                                   lambda r: None if r is None else obin(r[0], lo, hi, nb), occ, lambda r: r[0] == hi)
+        print("statement, per bin           :", first["p"] if first else None)
+        print("holds:", ok, " known deviations that explain the output:", ds)
+        return 0 if ok else 1
     r2 = C.Result()
     run(r2, "quick", int(payload.get("seed", 0) or 0))
     same = [x for x in r2.violations if x.get("key") == v.get("key")]
